@@ -108,6 +108,13 @@ var natives = map[string]interface{}{
 	"path/filepath.Ext":         filepath.Ext,
 }
 
+// std functions whose SSA body is interpreted when an argument is symbolic
+var interpretWhenSymbolic = map[string]bool{
+	"strconv.ParseInt": true, "strconv.ParseUint": true, "strconv.Atoi": true, "strconv.ParseBool": true,
+	"strings.TrimSpace": true, "strings.ToLower": true, "strings.ToUpper": true, "strings.Compare": true,
+	"strings.TrimPrefix": true, "strings.TrimSuffix": true, "strings.EqualFold": true,
+}
+
 var errorIface = reflect.TypeOf((*error)(nil)).Elem()
 
 // toNativeArg converts an engine value to a real Go value of type t.
@@ -365,6 +372,14 @@ func init() {
 	for name, f := range natives {
 		name, f := name, f
 		externals[name] = func(fr *frame, args []value) value {
+			if interpretWhenSymbolic[name] && fr.fn != nil && fr.fn.Blocks != nil {
+				for _, a := range args {
+					if isSym(a) {
+						// the real std-library code is executed on the symbolic operand
+						return fr.e.callSSAx(fr.caller, 0, fr.fn, args, nil, true)
+					}
+				}
+			}
 			return fr.e.callNative(name, f, args)
 		}
 	}
@@ -510,6 +525,8 @@ func init() {
 			}
 			return p
 		},
+		"internal/stringslite.Clone": func(fr *frame, args []value) value { return args[0] },
+		"strings.Clone":              func(fr *frame, args []value) value { return args[0] },
 		"errors.New": func(fr *frame, args []value) value {
 			if s, ok := args[0].(string); ok {
 				return fr.e.newError(s)
